@@ -335,6 +335,12 @@ func addC02Chained(run *Run, o OptSet, label string, a, b, c3 *Val) {
 			verdict = "fail the rendered diff cannot be read back: " + err.Error()
 			return "done"
 		}
+		// (the effect clause in the list reading only: under the set readings the patched document holds array nodes of
+		// the Go types jsonSet / jsonMultiset, whose strict replacement compares by the NODE's reading, and the text
+		// cannot carry those types — API chaining outside the property's quantifier, see DESIGN §11)
+		if o.Has("S") || o.Has("B") || o.Has("K") {
+			return "done"
+		}
 		p1 := implPatch(rw, dw)
 		p2 := implPatch(rw, jd.VerifEncodeDiff(d2))
 		if untagWire(p1) != untagWire(p2) {
